@@ -168,83 +168,173 @@ Qed.
 Lemma gen_forced_checked : gen_upvalue_check_covers_forced_symbols = true.
 Proof. reflexivity. Qed.
 
-Lemma accessible_visible : forall ch y, accessible ch y = visible_ok (up_fun_id ch) y.
-Proof. reflexivity. Qed.
 
 Definition nonempty (ch:list nscope) : Prop := ch <> [].
 
-Lemma names_sound :
-  (forall s, forall ch id, nonempty ch -> aname_stmt ch id s = [] -> rname_stmt (up_fun_id ch) (flat ch) s = true) /\
-  (forall b, forall ch, nonempty ch -> aname_block ch b = [] -> rname_block (up_fun_id ch) (flat ch) b = true) /\
-  (forall cs, forall ch, nonempty ch -> aname_cases ch cs = [] -> rname_cases (up_fun_id ch) (flat ch) cs = true).
+(* ---- the analyzer's symbol-table walk against the declarative scoping rule *)
+Definition suffix (o fp:list nat) : Prop := exists pre, fp = pre ++ o.
+
+Definition decl_rel (fp:list nat) (y:sym) (d:decl) : Prop :=
+  match d with
+  | DFun a => sar y = Some a
+  | DVar q o => sar y = None /\ sq y = q /\ sfd y = S (length o) /\ suffix o fp
+  end.
+
+Definition entry_rel (fp:list nat) (a:nat * sym) (b:nat * decl) : Prop :=
+  fst a = fst b /\ decl_rel fp (snd a) (snd b).
+
+Definition Inv (ch:list nscope) (e:renv) (fp:list nat) : Prop :=
+  Forall2 (entry_rel fp) (flat ch) e /\ up_fun_id ch = S (length fp).
+
+Lemma path_eqb_eq : forall a b, path_eqb a b = true <-> a = b.
 Proof.
-  apply sbc_mutind; try (intros; reflexivity).
-  - (* Assign *) intros x ch id Hne H. cbn [aname_stmt rname_stmt] in *. unfold id_errs in H.
-    rewrite chain_lookup_flat in H. destruct (lookup x (flat ch)) as [y|]; [|discriminate].
-    rewrite <- accessible_visible. destruct (accessible ch y); [|discriminate]. simpl in *.
-    destruct (sar y); [discriminate|]. destruct (sq y); try discriminate. reflexivity.
-  - (* Use *) intros x ch id Hne H. cbn [aname_stmt rname_stmt] in *. unfold id_errs in H.
-    rewrite chain_lookup_flat in H. destruct (lookup x (flat ch)) as [y|]; [|discriminate].
-    rewrite <- accessible_visible. simpl in H. destruct (accessible ch y); [reflexivity | discriminate].
-  - (* AssignF *) intros x ch id Hne H. cbn [aname_stmt rname_stmt] in *. unfold forced_errs in H.
-    rewrite gen_forced_checked in H.
-    rewrite chain_lookup_flat in H. destruct (lookup x (flat ch)) as [y|]; [|discriminate].
-    rewrite <- accessible_visible. destruct (accessible ch y); [|discriminate]. simpl in *.
-    destruct (sar y); [discriminate|]. destruct (sq y); try discriminate. reflexivity.
-  - (* UseF *) intros x ch id Hne H. cbn [aname_stmt rname_stmt] in *. unfold forced_errs in H.
-    rewrite gen_forced_checked in H.
-    rewrite chain_lookup_flat in H. destruct (lookup x (flat ch)) as [y|]; [|discriminate].
-    rewrite <- accessible_visible. simpl in H. destruct (accessible ch y); [reflexivity | discriminate].
-  - (* Func *) intros f ps b IH ch id Hne H. cbn [aname_stmt rname_stmt] in *.
+  induction a as [|x r IH]; destruct b as [|y r']; simpl; split; intro H; try discriminate; try reflexivity.
+  - apply andb_true_iff in H as [H1 H2]. apply Nat.eqb_eq in H1. apply IH in H2. subst. reflexivity.
+  - inversion H; subst. rewrite Nat.eqb_refl. simpl. apply IH. reflexivity.
+Qed.
+
+Lemma suffix_same_length : forall o fp, suffix o fp -> length o = length fp -> o = fp.
+Proof.
+  intros o fp [pre ->] H. rewrite app_length in H. destruct pre; [reflexivity|]. simpl in H. lia.
+Qed.
+
+Lemma suffix_len_eqb : forall o fp, suffix o fp -> Nat.eqb (S (length o)) (S (length fp)) = path_eqb o fp.
+Proof.
+  intros o fp Hs. destruct (path_eqb o fp) eqn:E.
+  - apply path_eqb_eq in E. subst. apply Nat.eqb_refl.
+  - apply Nat.eqb_neq. intro H. injection H as H. apply suffix_same_length in H; [|exact Hs].
+    subst. assert (path_eqb fp fp = true) by (apply path_eqb_eq; reflexivity). congruence.
+Qed.
+
+Lemma lookup_rel : forall fp x l e, Forall2 (entry_rel fp) l e ->
+  match lookup x l, rlookup x e with
+  | Some y, Some d => decl_rel fp y d
+  | None, None => True
+  | _, _ => False
+  end.
+Proof.
+  intros fp x l e H. induction H as [|[a y] [b d] l e [Hab Hr] _ IH]; simpl; [exact I|].
+  simpl in Hab. subst b. destruct (Nat.eqb x a); [exact Hr | exact IH].
+Qed.
+
+Lemma access_use : forall ch fp y d, up_fun_id ch = S (length fp) -> decl_rel fp y d ->
+  accessible ch y = use_ok fp d.
+Proof.
+  intros ch fp y d Hu Hr. unfold accessible. destruct d as [q o|a]; simpl in Hr.
+  - destruct Hr as (H1 & H2 & H3 & H4). rewrite H1, H2, H3, Hu.
+    destruct q; simpl; try reflexivity; apply suffix_len_eqb; exact H4.
+  - rewrite Hr. reflexivity.
+Qed.
+
+Lemma rel_weaken : forall f fp y d, decl_rel fp y d -> decl_rel (f :: fp) y d.
+Proof.
+  intros f fp y d H. destruct d as [q o|a]; simpl in *; [|exact H].
+  destruct H as (H1 & H2 & H3 & [pre ->]). repeat split; auto. exists (f :: pre). reflexivity.
+Qed.
+
+Lemma forall2_weaken : forall f fp l e, Forall2 (entry_rel fp) l e -> Forall2 (entry_rel (f :: fp)) l e.
+Proof.
+  intros f fp l e H. induction H as [|a b l e [H1 H2] _ IH]; constructor; auto.
+  split; [exact H1 | apply rel_weaken; exact H2].
+Qed.
+
+Lemma params_rel : forall fp fid ps l e, fid = S (length fp) -> Forall2 (entry_rel fp) l e ->
+  Forall2 (entry_rel fp) (fold_left (fun acc p => (p, mksym QVar None fid) :: acc) ps l)
+                         (fold_left (fun acc p => (p, DVar QVar fp) :: acc) ps e).
+Proof.
+  intros fp fid ps. induction ps as [|p r IH]; intros l e Hf H; simpl; [exact H|].
+  apply IH; [exact Hf|]. constructor; [|exact H]. split; [reflexivity|]. simpl.
+  repeat split; auto. exists []. reflexivity.
+Qed.
+
+Lemma errs_app_nil : forall (a b:errs), a ++ b = [] <-> a = [] /\ b = [].
+Proof. intros a b. split; [apply app_nil_inv | intros [-> ->]; reflexivity]. Qed.
+
+Lemma andb_iff : forall a b (P Q:Prop), (P <-> a = true) -> (Q <-> b = true) -> (P /\ Q <-> a && b = true).
+Proof. intros a b P Q H1 H2. rewrite andb_true_iff. tauto. Qed.
+
+(* the analyzer raises nowhere exactly when the declarative rule holds *)
+Lemma names_iff :
+  (forall s, forall ch e fp id, nonempty ch -> Inv ch e fp -> (aname_stmt ch id s = [] <-> rname_stmt fp e s = true)) /\
+  (forall b, forall ch e fp, nonempty ch -> Inv ch e fp -> (aname_block ch b = [] <-> rname_block fp e b = true)) /\
+  (forall cs, forall ch e fp, nonempty ch -> Inv ch e fp -> (aname_cases ch cs = [] <-> rname_cases fp e cs = true)).
+Proof.
+  assert (Hpush : forall ch e fp, Inv ch e fp -> Inv (mkn false [] :: ch) e fp) by (intros ch e fp H; exact H).
+  assert (Hne1 : forall ch, nonempty (mkn false [] :: ch)) by (intros; discriminate).
+  apply sbc_mutind; try (intros; split; reflexivity).
+  - (* Assign *) intros x ch e fp id Hne [Hf Hu]. cbn [aname_stmt rname_stmt]. unfold id_errs.
+    rewrite chain_lookup_flat. pose proof (lookup_rel fp x _ _ Hf) as Hl.
+    destruct (lookup x (flat ch)) as [y|], (rlookup x e) as [d|]; try contradiction; [|split; discriminate].
+    rewrite (access_use ch fp y d Hu Hl). destruct d as [q o|a]; simpl in Hl.
+    + destruct Hl as (H1 & H2 & H3 & H4). rewrite H1, H2. destruct q; simpl; try (split; discriminate).
+      * destruct (path_eqb o fp); simpl; split; auto; discriminate.
+      * destruct (path_eqb o fp); simpl; split; discriminate.
+    + rewrite Hl. simpl. split; discriminate.
+  - (* Use *) intros x ch e fp id Hne [Hf Hu]. cbn [aname_stmt rname_stmt]. unfold id_errs.
+    rewrite chain_lookup_flat. pose proof (lookup_rel fp x _ _ Hf) as Hl.
+    destruct (lookup x (flat ch)) as [y|], (rlookup x e) as [d|]; try contradiction; [|split; discriminate].
+    rewrite (access_use ch fp y d Hu Hl). simpl. destruct (use_ok fp d); split; auto; discriminate.
+  - (* AssignF *) intros x ch e fp id Hne [Hf Hu]. cbn [aname_stmt rname_stmt]. unfold forced_errs.
+    rewrite gen_forced_checked.
+    rewrite chain_lookup_flat. pose proof (lookup_rel fp x _ _ Hf) as Hl.
+    destruct (lookup x (flat ch)) as [y|], (rlookup x e) as [d|]; try contradiction; [|split; discriminate].
+    rewrite (access_use ch fp y d Hu Hl). destruct d as [q o|a]; simpl in Hl.
+    + destruct Hl as (H1 & H2 & H3 & H4). unfold const_errs. rewrite H1, H2. destruct q; simpl; try (split; discriminate).
+      * destruct (path_eqb o fp); simpl; split; auto; discriminate.
+      * destruct (path_eqb o fp); simpl; split; discriminate.
+    + unfold const_errs. rewrite Hl. simpl. split; discriminate.
+  - (* UseF *) intros x ch e fp id Hne [Hf Hu]. cbn [aname_stmt rname_stmt]. unfold forced_errs.
+    rewrite gen_forced_checked.
+    rewrite chain_lookup_flat. pose proof (lookup_rel fp x _ _ Hf) as Hl.
+    destruct (lookup x (flat ch)) as [y|], (rlookup x e) as [d|]; try contradiction; [|split; discriminate].
+    rewrite (access_use ch fp y d Hu Hl). simpl. destruct (use_ok fp d); split; auto; discriminate.
+  - (* Func *) intros f ps b IH ch e fp id Hne [Hf Hu]. cbn [aname_stmt rname_stmt].
     destruct ch as [|s0 r0]; [exfalso; apply Hne; reflexivity|].
-    set (symf := mksym QVar (Some (length ps)) (up_fun_id (s0 :: r0))) in *.
-    assert (Hne' : nonempty (mkn false [] :: mkn true (fold_left (fun acc p => (p, mksym QVar None (up_fun_id (mkn true [] :: declare f symf (s0 :: r0)))) :: acc) ps []) :: declare f symf (s0 :: r0))) by discriminate.
-    specialize (IH _ Hne' H).
+    set (symf := mksym QVar (Some (length ps)) (up_fun_id (s0 :: r0))).
+    apply IH; [discriminate|].
     assert (Hid : up_fun_id (mkn true [] :: declare f symf (s0 :: r0)) = S (up_fun_id (s0 :: r0))).
     { unfold up_fun_id at 1. cbn [filter nfun]. cbn [length]. f_equal. apply up_fun_id_declare. }
-    rewrite Hid in IH.
-    assert (Hid2 : forall l, up_fun_id (mkn false [] :: mkn true l :: declare f symf (s0 :: r0)) = S (up_fun_id (s0 :: r0))).
-    { intro l. unfold up_fun_id at 1. cbn [filter nfun]. cbn [length]. f_equal. apply up_fun_id_declare. }
-    rewrite Hid2 in IH.
-    unfold flat in IH. cbn [flat_map nsyms app] in IH. fold (flat (declare f symf (s0 :: r0))) in IH.
-    rewrite flat_declare in IH.
-    unfold param_env. rewrite fold_cons_app. exact IH.
-  - (* Call *) intros f n ch id Hne H. cbn [aname_stmt rname_stmt] in *.
-    rewrite chain_lookup_flat in H. destruct (lookup f (flat ch)) as [y|]; [|discriminate].
-    destruct (sar y) as [a|]; [|discriminate]. destruct (Nat.leb n a); [reflexivity | discriminate].
-  - (* Do *) intros b IH ch id Hne H. cbn [aname_stmt rname_stmt] in *.
-    assert (Hne' : nonempty (mkn false [] :: ch)) by discriminate. exact (IH _ Hne' H).
-  - (* If *) intros t IHt e IHe ch id Hne H. cbn [aname_stmt rname_stmt] in *.
-    apply app_nil_inv in H as [H1 H2].
-    assert (Hne' : nonempty (mkn false [] :: ch)) by discriminate.
-    apply andb_true_iff. split; [exact (IHt _ Hne' H1) | exact (IHe _ Hne' H2)].
-  - (* While *) intros b IH ch id Hne H. cbn [aname_stmt rname_stmt] in *.
-    assert (Hne' : nonempty (mkn false [] :: mkn false [] :: ch)) by discriminate. exact (IH _ Hne' H).
-  - (* Repeat *) intros b IH ch id Hne H. cbn [aname_stmt rname_stmt] in *.
-    assert (Hne' : nonempty (mkn false [] :: mkn false [] :: ch)) by discriminate. exact (IH _ Hne' H).
-  - (* For *) intros b IH ch id Hne H. cbn [aname_stmt rname_stmt] in *.
-    assert (Hne' : nonempty (mkn false [] :: mkn false [] :: ch)) by discriminate. exact (IH _ Hne' H).
-  - (* Switch *) intros cs IHc els d IHd ch id Hne H. cbn [aname_stmt rname_stmt] in *.
-    apply app_nil_inv in H as [H1 H2].
-    assert (Hne1 : nonempty (mkn false [] :: ch)) by discriminate.
-    assert (Hne2 : nonempty (mkn false [] :: mkn false [] :: ch)) by discriminate.
-    apply andb_true_iff. split; [exact (IHc _ Hne1 H1) | exact (IHd _ Hne2 H2)].
-  - (* Defer *) intros b IH ch id Hne H. cbn [aname_stmt rname_stmt] in *.
-    assert (Hne' : nonempty (mkn false [] :: ch)) by discriminate. exact (IH _ Hne' H).
-  - (* BCons *) intros id s IHs r IHr ch Hne H. cbn [aname_block rname_block] in *.
-    apply app_nil_inv in H as [H1 H2]. rewrite (IHs ch id Hne H1). cbn [andb].
-    destruct ch as [|s0 r0]; [exfalso; apply Hne; reflexivity|].
-    destruct s; try exact (IHr _ Hne H2).
-    + (* Local *)
-      assert (Hne' : nonempty (declare x (mksym q None (up_fun_id (s0 :: r0))) (s0 :: r0))) by discriminate.
-      specialize (IHr _ Hne' H2). rewrite up_fun_id_declare, flat_declare in IHr. exact IHr.
-    + (* Func *)
-      assert (Hne' : nonempty (declare f (mksym QVar (Some (length ps)) (up_fun_id (s0 :: r0))) (s0 :: r0))) by discriminate.
-      specialize (IHr _ Hne' H2). rewrite up_fun_id_declare, flat_declare in IHr. exact IHr.
-  - (* CCons *) intros cid cv b IHb r IHr ch Hne H. cbn [aname_cases rname_cases] in *.
-    apply app_nil_inv in H as [H1 H2].
-    assert (Hne' : nonempty (mkn false [] :: ch)) by discriminate.
-    apply andb_true_iff. split; [exact (IHb _ Hne' H1) | exact (IHr _ Hne H2)].
+    split.
+    + unfold flat. cbn [flat_map nsyms app]. fold (flat (declare f symf (s0 :: r0))). rewrite flat_declare.
+      rewrite fold_cons_app. unfold rparams.
+      rewrite (fold_cons_app (fun p => (p, mksym QVar None (up_fun_id (mkn true [] :: declare f symf (s0 :: r0)))))).
+      assert (Hx : forall (g:nat -> nat * decl) ps0 acc, fold_left (fun a p => g p :: a) ps0 acc = fold_left (fun a p => g p :: a) ps0 [] ++ acc).
+      { intros g ps0. induction ps0 as [|p0 r1 IH1]; intro acc; simpl; [reflexivity|].
+        rewrite IH1. rewrite (IH1 [g p0]). rewrite <- app_assoc. reflexivity. }
+      rewrite (Hx (fun p => (p, DVar QVar (f :: fp)))).
+      apply Forall2_app.
+      * rewrite ?app_nil_r. apply params_rel; [rewrite Hid, Hu; reflexivity | constructor].
+      * constructor; [split; reflexivity|]. apply forall2_weaken. exact Hf.
+    + unfold up_fun_id at 1. cbn [filter nfun]. cbn [length]. f_equal.
+      fold (up_fun_id (declare f symf (s0 :: r0))). rewrite up_fun_id_declare. exact Hu.
+  - (* Call *) intros f n ch e fp id Hne [Hf Hu]. cbn [aname_stmt rname_stmt].
+    rewrite chain_lookup_flat. pose proof (lookup_rel fp f _ _ Hf) as Hl.
+    destruct (lookup f (flat ch)) as [y|], (rlookup f e) as [d|]; try contradiction; [|split; discriminate].
+    destruct d as [q o|a]; simpl in Hl.
+    + destruct Hl as (H1 & _). rewrite H1. simpl. split; discriminate.
+    + rewrite Hl. simpl. destruct (Nat.leb n a); split; auto; discriminate.
+  - (* Do *) intros b IH ch e fp id Hne Hi. cbn [aname_stmt rname_stmt]. apply IH; auto.
+  - (* If *) intros t IHt el IHe ch e fp id Hne Hi. cbn [aname_stmt rname_stmt]. rewrite errs_app_nil.
+    apply andb_iff; [apply IHt | apply IHe]; auto.
+  - (* While *) intros b IH ch e fp id Hne Hi. cbn [aname_stmt rname_stmt]. apply IH; auto.
+  - (* Repeat *) intros b IH ch e fp id Hne Hi. cbn [aname_stmt rname_stmt]. apply IH; auto.
+  - (* For *) intros b IH ch e fp id Hne Hi. cbn [aname_stmt rname_stmt]. apply IH; auto.
+  - (* Switch *) intros cs IHc els d IHd ch e fp id Hne Hi. cbn [aname_stmt rname_stmt]. rewrite errs_app_nil.
+    apply andb_iff; [apply IHc | apply IHd]; auto.
+  - (* Defer *) intros b IH ch e fp id Hne Hi. cbn [aname_stmt rname_stmt]. apply IH; auto.
+  - (* BCons *) intros id s IHs r IHr ch e fp Hne Hi. cbn [aname_block rname_block]. rewrite errs_app_nil.
+    apply andb_iff; [apply IHs; auto|].
+    destruct ch as [|s0 r0]; [exfalso; apply Hne; reflexivity|]. destruct Hi as [Hf Hu].
+    destruct s; try (apply IHr; [exact Hne | split; assumption]).
+    + (* Local *) apply IHr; [discriminate|]. split.
+      * rewrite flat_declare. constructor; [|exact Hf]. split; [reflexivity|]. simpl.
+        repeat split; auto. exists []. reflexivity.
+      * rewrite up_fun_id_declare. exact Hu.
+    + (* Func *) apply IHr; [discriminate|]. split.
+      * rewrite flat_declare. constructor; [|exact Hf]. split; reflexivity.
+      * rewrite up_fun_id_declare. exact Hu.
+  - (* CCons *) intros cid cv b IHb r IHr ch e fp Hne Hi. cbn [aname_cases rname_cases]. rewrite errs_app_nil.
+    apply andb_iff; [apply IHb | apply IHr]; auto.
 Qed.
 
 (* ================================================================== A. break / continue / fallthrough *)
@@ -426,7 +516,7 @@ Proof. intros p H. exact (proj1 (proj2 switch_sound) p H). Qed.
 Theorem names_sound_thm : forall p, off_names p = [] -> rule_names p = true.
 Proof.
   intros p H. unfold off_names, rule_names in *.
-  exact (proj1 (proj2 names_sound) p [mkn false []; mkn true []] ltac:(discriminate) H).
+  apply (proj1 (proj2 names_iff) p [mkn false []; mkn true []] [] []); [discriminate | split; [constructor | reflexivity] | exact H].
 Qed.
 
 Theorem labels_sound_thm : forall p, off_labels p = [] -> rule_labels p = true.
@@ -447,11 +537,51 @@ Proof.
   apply (proj1 (proj2 flow_complete) p [plain_scope; func_scope] false); [intro Hx; discriminate Hx | exact H].
 Qed.
 
-Theorem analyzer_sound : forall p, analyzer_ok p = true -> rule_ok p = true.
+Theorem analyzer_sound_partial : forall p, analyzer_ok p = true -> rule_ok p = true.
 Proof.
   intros p H. destruct (analyzer_ok_parts p H) as (H1 & H2 & H3 & H4 & H5). unfold rule_ok.
   rewrite (flow_sound_thm p H1), (names_sound_thm p H2), (labels_sound_thm p H3), (consts_sound_thm p H4), (switch_sound_thm p H5).
   reflexivity.
+Qed.
+
+(* ---- full strength: FALSE for the unchanged analyzer *)
+Definition analyzer_sound_full : Prop := forall p, analyzer_ok p = true -> rule_ok_full p = true.
+Definition labels_sound_full : Prop := forall p, off_labels p = [] -> rule_labels_full p = true.
+
+(* ::l1::  defer goto l1 end : the goto leaves the defer block *)
+Definition witness_goto_leaves_defer : block :=
+  BCons 1 (Label 1) (BCons 2 (Defer (BCons 3 (Goto 1) BNil)) BNil).
+
+(* do ::l1:: end  ::l1:: : the label is repeated in the function (not visible at the second declaration) *)
+Definition witness_label_repeated : block :=
+  BCons 1 (Do (BCons 2 (Label 1) BNil)) (BCons 3 (Label 1) BNil).
+
+Lemma witness_goto_leaves_defer_facts :
+  analyzer_ok witness_goto_leaves_defer = true /\ rule_ok witness_goto_leaves_defer = true /\
+  rule_goto_stays_in_defer witness_goto_leaves_defer = false.
+Proof. repeat split; vm_compute; reflexivity. Qed.
+
+Lemma witness_label_repeated_facts :
+  analyzer_ok witness_label_repeated = true /\ rule_ok witness_label_repeated = true /\
+  rule_labels_unique witness_label_repeated = false.
+Proof. repeat split; vm_compute; reflexivity. Qed.
+
+Theorem labels_sound_refuted : ~ labels_sound_full.
+Proof.
+  intro H. assert (Ho : off_labels witness_goto_leaves_defer = []) by (vm_compute; reflexivity).
+  specialize (H _ Ho). vm_compute in H. discriminate.
+Qed.
+
+Theorem labels_unique_refuted : ~ (forall p, off_labels p = [] -> rule_labels_unique p = true).
+Proof.
+  intro H. assert (Ho : off_labels witness_label_repeated = []) by (vm_compute; reflexivity).
+  specialize (H _ Ho). vm_compute in H. discriminate.
+Qed.
+
+Theorem analyzer_sound_refuted : ~ analyzer_sound_full.
+Proof.
+  intro H. destruct witness_goto_leaves_defer_facts as (Ha & _ & _).
+  specialize (H _ Ha). vm_compute in H. discriminate.
 Qed.
 
 (* regression witness of the repaired hole: switch sel() do case 1 then  case 2 then fallthrough end *)
@@ -471,70 +601,10 @@ Example sound_example :
 Proof. vm_compute. auto. Qed.
 
 (* ================================================================== completeness of the name checks *)
-Lemma names_complete :
-  (forall s, forall ch id, nonempty ch -> rname_stmt (up_fun_id ch) (flat ch) s = true -> aname_stmt ch id s = []) /\
-  (forall b, forall ch, nonempty ch -> rname_block (up_fun_id ch) (flat ch) b = true -> aname_block ch b = []) /\
-  (forall cs, forall ch, nonempty ch -> rname_cases (up_fun_id ch) (flat ch) cs = true -> aname_cases ch cs = []).
-Proof.
-  apply sbc_mutind; try (intros; reflexivity).
-  - (* Assign *) intros x ch id Hne H. cbn [aname_stmt rname_stmt] in *. unfold id_errs.
-    rewrite chain_lookup_flat. destruct (lookup x (flat ch)) as [y|]; [|discriminate].
-    apply andb_true_iff in H as [H1 H2]. rewrite accessible_visible, H1. simpl.
-    destruct (sar y); [discriminate|]. destruct (sq y); try discriminate. reflexivity.
-  - (* Use *) intros x ch id Hne H. cbn [aname_stmt rname_stmt] in *. unfold id_errs.
-    rewrite chain_lookup_flat. destruct (lookup x (flat ch)) as [y|]; [|discriminate].
-    rewrite accessible_visible, H. reflexivity.
-  - (* AssignF *) intros x ch id Hne H. cbn [aname_stmt rname_stmt] in *. unfold forced_errs.
-    rewrite gen_forced_checked.
-    rewrite chain_lookup_flat. destruct (lookup x (flat ch)) as [y|]; [|discriminate].
-    apply andb_true_iff in H as [H1 H2]. rewrite accessible_visible, H1. simpl.
-    destruct (sar y); [discriminate|]. destruct (sq y); try discriminate. reflexivity.
-  - (* UseF *) intros x ch id Hne H. cbn [aname_stmt rname_stmt] in *. unfold forced_errs.
-    rewrite gen_forced_checked.
-    rewrite chain_lookup_flat. destruct (lookup x (flat ch)) as [y|]; [|discriminate].
-    rewrite accessible_visible, H. reflexivity.
-  - (* Func *) intros f ps b IH ch id Hne H. cbn [aname_stmt rname_stmt] in *.
-    destruct ch as [|s0 r0]; [exfalso; apply Hne; reflexivity|].
-    set (symf := mksym QVar (Some (length ps)) (up_fun_id (s0 :: r0))) in *.
-    apply IH; [discriminate|].
-    assert (Hid : up_fun_id (mkn true [] :: declare f symf (s0 :: r0)) = S (up_fun_id (s0 :: r0))).
-    { unfold up_fun_id at 1. cbn [filter nfun]. cbn [length]. f_equal. apply up_fun_id_declare. }
-    rewrite Hid.
-    assert (Hid2 : forall l, up_fun_id (mkn false [] :: mkn true l :: declare f symf (s0 :: r0)) = S (up_fun_id (s0 :: r0))).
-    { intro l. unfold up_fun_id at 1. cbn [filter nfun]. cbn [length]. f_equal. apply up_fun_id_declare. }
-    rewrite Hid2.
-    unfold flat. cbn [flat_map nsyms app]. fold (flat (declare f symf (s0 :: r0))).
-    rewrite flat_declare.
-    unfold param_env in H. rewrite fold_cons_app in H. exact H.
-  - (* Call *) intros f n ch id Hne H. cbn [aname_stmt rname_stmt] in *.
-    rewrite chain_lookup_flat. destruct (lookup f (flat ch)) as [y|]; [|discriminate].
-    destruct (sar y) as [a|]; [|discriminate]. rewrite H. reflexivity.
-  - (* Do *) intros b IH ch id Hne H. cbn [aname_stmt rname_stmt] in *. apply IH; [discriminate | exact H].
-  - (* If *) intros t IHt e IHe ch id Hne H. cbn [aname_stmt rname_stmt] in *. apply andb_true_iff in H as [H1 H2].
-    rewrite (IHt (mkn false [] :: ch)); [|discriminate | exact H1].
-    rewrite (IHe (mkn false [] :: ch)); [reflexivity | discriminate | exact H2].
-  - (* While *) intros b IH ch id Hne H. cbn [aname_stmt rname_stmt] in *. apply IH; [discriminate | exact H].
-  - (* Repeat *) intros b IH ch id Hne H. cbn [aname_stmt rname_stmt] in *. apply IH; [discriminate | exact H].
-  - (* For *) intros b IH ch id Hne H. cbn [aname_stmt rname_stmt] in *. apply IH; [discriminate | exact H].
-  - (* Switch *) intros cs IHc els d IHd ch id Hne H. cbn [aname_stmt rname_stmt] in *. apply andb_true_iff in H as [H1 H2].
-    rewrite (IHc (mkn false [] :: ch)); [|discriminate | exact H1].
-    rewrite (IHd (mkn false [] :: mkn false [] :: ch)); [reflexivity | discriminate | exact H2].
-  - (* Defer *) intros b IH ch id Hne H. cbn [aname_stmt rname_stmt] in *. apply IH; [discriminate | exact H].
-  - (* BCons *) intros id s IHs r IHr ch Hne H. cbn [aname_block rname_block] in *.
-    apply andb_true_iff in H as [H1 H2]. rewrite (IHs ch id Hne H1). cbn [app].
-    destruct ch as [|s0 r0]; [exfalso; apply Hne; reflexivity|].
-    destruct s; try exact (IHr _ Hne H2).
-    + apply IHr; [discriminate|]. rewrite up_fun_id_declare, flat_declare. exact H2.
-    + apply IHr; [discriminate|]. rewrite up_fun_id_declare, flat_declare. exact H2.
-  - (* CCons *) intros cid cv b IHb r IHr ch Hne H. cbn [aname_cases rname_cases] in *. apply andb_true_iff in H as [H1 H2].
-    rewrite (IHb (mkn false [] :: ch)); [|discriminate | exact H1].
-    rewrite (IHr ch Hne H2). reflexivity.
-Qed.
-
 Theorem names_complete_thm : forall p, rule_names p = true -> off_names p = [].
 Proof.
   intros p H. unfold off_names, rule_names in *.
-  apply (proj1 (proj2 names_complete) p [mkn false []; mkn true []]); [discriminate | exact H].
+  apply (proj1 (proj2 names_iff) p [mkn false []; mkn true []] [] []); [discriminate | split; [constructor | reflexivity] | exact H].
 Qed.
 
 (* the goto/defer check is deliberately conservative: a defer BEFORE the label is not crossed by a backward
